@@ -60,9 +60,8 @@ def small_cases(tier, rng):
                 seen.add(s)
                 out.append(s)
     out.sort()
-    if tier == "quick":
-        rng.shuffle(out)
-        out = out[:140]
+    rng.shuffle(out)
+    out = out[:140] if tier == "quick" else out[:500]
     return out
 
 
@@ -72,7 +71,7 @@ def chunk_tail_streams():
     head = b"POST / HTTP/1.1\r\nTransfer-Encoding: chunked\r\n\r\n"
     alpha = [b"\r", b"\n", b"0", b"2", b"a", b";", b"\r\n"]
     out = []
-    for n in range(1, 6):
+    for n in range(1, 5):
         for t in itertools.product(alpha, repeat=n):
             out.append(head + b"".join(t))
     return head, out
@@ -96,11 +95,11 @@ def run(ctx):
     if runner is None:
         ctx.oblige("extracted parser/channel runner builds", False, "see notes")
     else:
-        cases = PC.build_cases(rng, 600 if thorough else 110, small_atoms=2)
+        cases = PC.build_cases(rng, 500 if thorough else 110, small_atoms=2)
         # all cut sets of short streams (thorough: every stream of <= 12 bytes from the atoms)
         smalls = small_cases(ctx.tier, rng)
         nall = 0
-        for s in (smalls if thorough else smalls[:40]):
+        for s in (smalls[:150] if thorough else smalls[:40]):
             for cuts in S.all_cutsets(len(s)):
                 if cuts:
                     cases.append(("chan", 262144, 1073741824, S.pieces(s, cuts), {"stream": "small-allcuts"}))
@@ -132,7 +131,7 @@ def run(ctx):
     unexplained = []
     seg_evals = 0
     streams = []
-    nstreams = 700 if thorough else 90
+    nstreams = 250 if thorough else 90
     for i in range(nstreams):
         s, tags = gen_http.gen_stream(rng, "mutation" if i % 2 else "grammar")
         for mh, mb in gen_http.limits_for(rng, s):
@@ -143,9 +142,8 @@ def run(ctx):
         streams.append((262144, 1073741824, s, "small"))
         streams.append((max(1, len(s) - 2), 3, s, "small"))
     head, tails = chunk_tail_streams()
-    if not thorough:
-        rng.shuffle(tails)
-        tails = tails[:150]
+    rng.shuffle(tails)
+    tails = tails[:150] if not thorough else tails[:900]
     for s in tails:
         streams.append((262144, len(s) - len(head) + rng.choice([-1, 0, 1, 50]), s, "chunk-tail"))
     dist = {}
@@ -199,7 +197,7 @@ def run(ctx):
     ctx.coverage.update({
         "evaluations": evaluations,
         "distinct_nontrivial": len(nontrivial),
-        "rule": "K-chanseq: grammar/mutation/small-atom streams x limits x (whole, byte-wise, random cuts, cuts inside every CRLF; all 2^(n-1) cut sets for streams of <= 12 bytes); search: same streams + targeted + every chunked tail of <= 5 framing atoms, each under every single cut, byte-wise, CRLF cuts, random cut sets (thorough: all double cuts up to 90 bytes); non-trivial = distinct whole-stream observations that contain a request delivered without error",
+        "rule": "K-chanseq: grammar/mutation/small-atom streams x limits x (whole, byte-wise, random cuts, cuts inside every CRLF; all 2^(n-1) cut sets for sampled streams of <= 12 bytes); search: same streams + targeted + chunked tails of <= 4 framing atoms, each under every single cut, byte-wise, CRLF cuts, random cut sets (thorough: all double cuts up to 45 bytes); non-trivial = distinct whole-stream observations that contain a request delivered without error",
         "samples": samples,
         "input_distribution": dist,
     })
